@@ -13,15 +13,53 @@ generator (never guessed from the exception text alone):
   field-override-container   a reachable field carries a field-level serialize callable / serialization_strategy
                              whose return annotation is not a plain class: a parametrised generic (List[str],
                              Dict[str, bool], Optional[str]) or a string (module with `from __future__ import annotations`)
-  final-type                 a reachable dataclass field is annotated Final[...]
   nt-mutable-default         a reachable NamedTuple has a list default
+  default-ignores-field-strategy  a reachable field of a type that is serializable only through its FIELD-level strategy has a default
+  default-forwardref-namedtuple   a default is rendered over a NamedTuple with string annotations (a defaulted field of the NamedTuple
+                             itself, or a defaulted dataclass field whose type contains such a NamedTuple from another module)
   defs-bare-name-clash       two different specialisations of one generic dataclass are reachable
 """
 from __future__ import annotations
 
 import random
 
+# a second module: a third-party type (serializable only through a strategy) and NamedTuple / TypedDict / dataclass
+# definitions with string annotations whose names exist only in that module
+LIB_SRC = '''\
+import enum
+from dataclasses import dataclass
+from typing import *
+class Pt:
+    def __init__(self, x=0):
+        self.x = x
+def pt_ser(v: Pt) -> int:
+    return v.x
+def pt_ser_s(v: Pt) -> str:
+    return str(v.x)
+PT_STRATEGY = {"serialize": pt_ser, "deserialize": Pt}
+class LE(enum.Enum):
+    A = "a"
+    B = 2
+LAlias = Dict[str, int]
+@dataclass
+class LD:
+    v: "LAlias"
+    e: "Optional[LE]" = None
+class LNT(NamedTuple):
+    e: "LE"
+    m: "LAlias"
+    d: "Optional[LD]"
+class LNTd(NamedTuple):
+    e: "LE"
+    m: "LAlias" = None
+class LTD(TypedDict):
+    e: "LE"
+    m: "List[LD]"
+'''
+
 PRELUDE = '''\
+import __C20_LIB__ as lib
+from __C20_LIB__ import LNT, LNTd, LTD, LD, Pt
 import collections, datetime, decimal, enum, fractions, ipaddress, pathlib, uuid, zoneinfo
 import typing
 from dataclasses import dataclass, field, InitVar
@@ -232,7 +270,7 @@ class Fam:
         if depth <= 0 or x < 0.34:
             if avail and r.random() < 0.35:
                 return self.class_type(r.choice(avail))
-            if self.kf_wanted == "nt-mutable-default" and r.random() < 0.3:
+            if self.kf_wanted == "nt-mutable-default" and r.random() < 0.3 and not self.future_annotations:
                 self.kf = "nt-mutable-default"
                 return T("NT3", _choice(["NT3()", "NT3(1, [2])"]), immut=False, feat="NamedTuple-mutable-default")
             while True:
@@ -245,7 +283,7 @@ class Fam:
         k = r.choice(["List", "list", "Sequence", "Deque", "Set", "FrozenSet", "TupleVar", "TupleFix", "Dict", "Mapping",
                       "OrderedDict", "DefaultDict", "Counter", "ChainMap", "Optional", "Union", "Annotated", "Final",
                       "MutableMapping", "AbstractSet", "Collection", "TupleUnpack", "Optional", "Union", "List", "Dict",
-                      "Annotated", "Generic"])
+                      "Annotated", "Generic", "Final", "Final"])
         self.h("ctor:" + k)
         if k in ("List", "list", "Sequence", "Deque", "Collection"):
             a = self.gen_type(depth - 1, avail)
@@ -332,9 +370,10 @@ class Fam:
             return T(f"Annotated[{a.src}, {', '.join(ann)}]", a.val, immut=a.immut, classes=a.classes, selfref=a.selfref, generic=a.generic)
         if k == "Final":
             a = self.gen_type(depth - 1, avail)
-            if not top or self.kf_wanted != "final-type" or self.kf is not None:
+            # Final[T] is legal only as the outermost annotation of a field; kept out of the families that carry the
+            # Self known finding (same exception text there), so that an unexpected TypeError is never attributed to it
+            if not top or self.kf_wanted == "self-type":
                 return a
-            self.kf = "final-type"
             return T(f"Final[{a.src}]", a.val, immut=a.immut, classes=a.classes, selfref=a.selfref, generic=a.generic, feat="Final")
         if k == "Generic":
             gens = [c for c in avail if self.classes[c].get("generic")]
@@ -677,18 +716,116 @@ class Fam:
             self.kf_wanted = "field-strategy-unannotated"
         elif x < 0.17:
             self.kf_wanted = "defs-bare-name-clash"
-        elif x < 0.20:
-            self.kf_wanted = "final-type"
         elif x < 0.23:
             self.kf_wanted = "nt-mutable-default"
         elif x < 0.26:
             self.kf_wanted = "field-override-container"
+        elif x < 0.28:
+            self.kf_wanted = "default-ignores-field-strategy"
+        elif x < 0.30:
+            self.kf_wanted = "default-forwardref-namedtuple"
         self.future_annotations = r.random() < float(__import__("os").environ.get("C20_FUT", "0.12"))
         n = n_classes or r.randrange(1, 6)
         names = [f"K{i}" for i in range(n)]
         for i, nm in enumerate(names):
             self.gen_class(nm, names[:i], names[i + 1:])
+        if r.random() < 0.14 or self.kf_wanted == "default-forwardref-namedtuple":
+            self.gen_xmod_holder(f"K{len(self.order)}")
+        if r.random() < 0.18 or self.kf_wanted == "default-ignores-field-strategy":
+            self.gen_thirdparty_holder(f"K{len(self.order)}")
         return self
+
+    def _holder(self, name: str, lines: list[str], fields: list[dict], **flags):
+        self.lines.extend(lines)
+        info = {"fields": fields, "all_fields": fields, "refs": set(), "selfref": False, "ctor": None, "generic": False, "frozen": False,
+                "aliases": set(), "holder": True}
+        info.update(flags)
+        self.classes[name] = info
+        self.order.append(name)
+
+    def gen_xmod_holder(self, name: str):
+        """a plain dataclass of THIS module whose fields use NamedTuple / TypedDict / dataclass types of the library module;
+        their string annotations name things that exist only there.  No rendered defaults over these types (the serializer
+        itself cannot compile such a NamedTuple from another module: default-forwardref-namedtuple)."""
+        r = self.r
+        forms = ["LNT", "List[LNT]", "Optional[LNT]", "Tuple[LNT, ...]", "Dict[str, LNT]", "Tuple[LNT, int]", "LTD", "List[LTD]", "LD",
+                 "Optional[LD]", "Dict[str, LD]", "Union[LNT, int]", "Final[LNT]"]
+        body, fields = [], []
+        n = r.randrange(1, 5)
+        kf = self.kf_wanted == "default-forwardref-namedtuple" and self.kf is None
+        for i in range(n):
+            ty = r.choice(forms)
+            if "Final" in ty and i != 0:
+                ty = "LNT"
+            body.append(f"    x{i}: {ty}")
+            fields.append({"name": f"x{i}", "type": T(ty, None), "has_default": False, "alias": None, "init": True,
+                           "explicit_default": False, "default_expr": ""})
+        for i, ty in enumerate(r.sample(["List[LNT]", "Dict[str, LTD]", "List[LD]"], r.randrange(0, 3))):
+            fac = "dict" if ty.startswith("Dict") else "list"
+            body.append(f"    y{i}: {ty} = field(default_factory={fac})")
+            fields.append({"name": f"y{i}", "type": T(ty, None), "has_default": True, "alias": None, "init": True,
+                           "explicit_default": False, "default_expr": ""})
+        if kf:
+            body.append("    z: " + r.choice(["LNTd = field(default_factory=lambda: lib.LNTd(lib.LE.A))", "Optional[LNT] = None", "LNTd = lib.LNTd(lib.LE.B, {})"]))
+            self.kf = "default-forwardref-namedtuple"
+        cfg = [f"        {o} = True" for o in ("omit_none", "namedtuple_as_dict", "serialize_by_alias", "omit_default") if r.random() < 0.3]
+        if cfg:
+            body.append("    class Config(BaseConfig):")
+            body.extend(cfg)
+        self._holder(name, ["@dataclass", f"class {name}:"] + body, fields, nt_fwd_default=kf)
+
+    def gen_thirdparty_holder(self, name: str):
+        """a dataclass with fields of the third-party type lib.Pt, serializable only through a strategy that comes from
+        Config.serialization_strategy, from Config.dialect, from both, or from the field; defaults of every form."""
+        r = self.r
+        kf = self.kf_wanted == "default-ignores-field-strategy" and self.kf is None
+        mode = "field" if kf else r.choice(["config", "dialect", "dialect", "both", "field"])
+        mixin = r.choice(["", "", "DataClassDictMixin", "DataClassORJSONMixin"])
+        body, fields = [], []
+        if mode == "field":
+            opt = r.choice(["serialization_strategy=lib.PT_STRATEGY", "serialize=lib.pt_ser, deserialize=Pt", "serialization_strategy={'serialize': lib.pt_ser_s, 'deserialize': Pt}"])
+            body.append(f"    p0: Pt = field(metadata=field_options({opt}))")
+            if r.random() < 0.5:
+                body.append(f"    p1: Pt = field(default_factory=Pt, metadata=field_options({opt}))")
+            if kf:
+                body.append(f"    p2: Pt = field(default=Pt(1), metadata=field_options({opt}))")
+                self.kf = "default-ignores-field-strategy"
+        else:
+            forms = [("Pt", "Pt(1)"), ("Optional[Pt]", "None"), ("Optional[Pt]", "Pt(2)"), ("Tuple[Pt, ...]", "(Pt(1), Pt())"), ("Tuple[Pt, int]", "(Pt(3), 1)"),
+                     ("List[Pt]", None), ("Dict[str, Pt]", None), ("Pt", None), ("Union[Pt, None, int]", "Pt(4)"), ("Final[Pt]", "Pt(5)")]
+            n = r.randrange(1, 5)
+            seen_default = False
+            for i, (ty, dv) in enumerate(r.sample(forms, n)):
+                if dv is None and ty in ("Pt",) and seen_default:
+                    dv = "Pt(9)"
+                if dv is not None:
+                    body.append(f"    p{i}: {ty} = {dv}")
+                    seen_default = True
+                elif ty == "Pt":
+                    body.append(f"    p{i}: {ty}")
+                else:
+                    body.append(f"    p{i}: {ty} = field(default_factory={'dict' if ty.startswith('Dict') else 'list'})")
+                    seen_default = True
+        for i in range(len(body)):
+            fields.append({"name": f"p{i}", "type": T("Pt", None), "has_default": "=" in body[i].split(":", 1)[1], "alias": None, "init": True,
+                           "explicit_default": False, "default_expr": ""})
+        pre = []
+        cfg = [f"        {o} = True" for o in ("omit_none", "omit_default", "serialize_by_alias") if r.random() < 0.35]
+        if mode in ("config", "both"):
+            cfg.append("        serialization_strategy = {Pt: lib.PT_STRATEGY}")
+        if mode in ("dialect", "both"):
+            self.n_dialects += 1
+            dn = f"Dl{self.n_dialects}"
+            pre = [f"class {dn}(Dialect):"] + [f"    {o} = {r.choice(['True', 'False'])}" for o in ("omit_none", "omit_default", "serialize_by_alias") if r.random() < 0.3]
+            strat = "{Pt: lib.PT_STRATEGY}" if mode == "dialect" else "{int: {'serialize': ser_str}}"
+            pre.append(f"    serialization_strategy = {strat}")
+            cfg.append(f"        dialect = {dn}")
+        if r.random() < 0.3:
+            cfg.append("        aliases = {'p0': '$ref'}")
+        if cfg:
+            body.append("    class Config(BaseConfig):")
+            body.extend(cfg)
+        self._holder(name, pre + ["@dataclass", f"class {name}" + (f"({mixin})" if mixin else "") + ":"] + body, fields, tp_field_default=kf)
 
     def source(self) -> str:
         return ("from __future__ import annotations\n" if self.future_annotations else "") + PRELUDE + "\n".join(self.lines) + "\n"
@@ -740,11 +877,8 @@ class Fam:
             "cyclic": self.cyclic(t),
             "selftype": any(self.classes[c]["selfref"] for c in reach) or t.selfref,
             "slots_hit": any(self.classes[c].get("slots_hit") for c in reach),
-            # omit_default splices repr(default) into the generated code: a container default is not a literal
-            "omit_default_container": any(self.classes[c].get("omit_default") and any(
-                f.get("default_expr", "").lstrip().startswith(("(", "[", "{", "frozenset(", "set(", "collections.", "NT", "K"))
-                for f in self.classes[c]["all_fields"]) for c in reach),
-            "final": any("Final[" in f["type"].src for c in reach for f in self.classes[c]["all_fields"]),
+            "tp_field_default": any(self.classes[c].get("tp_field_default") for c in reach),
+            "nt_fwd_default": any(self.classes[c].get("nt_fwd_default") for c in reach),
             "nt_mutable": ("NT3" in t.src) or any("NT3" in f["type"].src for c in reach for f in self.classes[c]["all_fields"]),
             "field_strategy_unannotated": self.kf == "field-strategy-unannotated" and bool(reach),
             "field_override_container": self.kf == "field-override-container" and bool(reach),
@@ -810,5 +944,6 @@ def gen_case(r: random.Random) -> dict:
         params = {"context": gen_context(r) or {"dialect": None, "all_refs": r.choice([None, True]), "ref_prefix": r.choice(CTX_PREFIXES)},
                   "steps": steps, "dialect": None, "all_refs": None, "ref_prefix": None, "with_definitions": True, "with_dialect_uri": False}
     return {"source": fam.source(), "roots": [t.src for t in roots], "mode": mode, "params": params,
+            "lib": LIB_SRC,
             "feats": feats, "kf_feature": fam.kf, "future_annotations": fam.future_annotations, "hist": fam.hist, "nclasses": len(fam.order),
             "root_feats": [t.feat for t in roots]}
